@@ -1,5 +1,6 @@
 import Nstd.Sync.LemmasMonitor
 import Nstd.Sync.LemmasRun
+import Nstd.Sync.LiveSem
 import Nstd.Generated.SyncCfg
 import Nstd.Generated.SyncMonitorOrder
 /-
@@ -337,6 +338,97 @@ theorem sem_simple_step_is_translated_code (s : Sem.St) (t : Tid) (s' : Sem.St) 
     (refine ⟨_, _, by rw [hp]; rfl, ?_⟩;
      simp_all [Sem.callOf, Sem.result, Fn.callAt, Fn.after, Fn.entry, SyncCfg.semaphore_signal, SyncCfg.semaphore_wait,
         SyncCfg.semaphore_tryWait, retVal, Cfg.RetV.toVal, upd])
+
+/-! ### Semaphore::wait(timeout): the sem_timedwait retry loop and the ENOSYS polling loop -/
+
+def Sem.pollAt : Sem.Pc → Option Nat
+  | .twait _ => some 0
+  | .pollTry _ _ => some 1
+  | .pollSleep _ _ _ => some 2
+  | _ => none
+
+/-- the POSIX call a program counter of wait(timeout) stands for (the `usleep` argument is the model's `Poll.sleepUs`) -/
+def Sem.pollCall : Sem.Pc → SCall
+  | .pollTry _ _ => .semTryWait
+  | .pollSleep _ _ _ => .usleep Sem.Poll.sleepUs
+  | _ => .semTimedWait
+
+/-- the loop variable a program counter carries -/
+def Sem.ctrOf : Sem.Pc → Nat
+  | .pollTry _ i | .pollSleep _ i _ => i
+  | _ => 0
+
+/-- how the pending call ends for alternative `alt` (ASSUMED POSIX layer): sem_timedwait — 0 success, 1 EINTR, 2 ETIMEDOUT /
+    EINVAL, 3 ENOSYS; sem_trywait succeeds iff the count is positive (else EAGAIN); usleep returns -/
+def Sem.outcome (s : Sem.St) (t : Tid) (alt : Nat) : Outcome :=
+  match s.pc t with
+  | .twait _ => if alt = 0 then .ok else if alt = 1 then .eintr else if alt = 3 then .enosys else .other
+  | .pollTry _ _ => if 0 < s.count then .ok else .other
+  | _ => .ok
+
+/-- Every step of a thread inside `Semaphore::wait(timeout)` follows the table translated from the current Semaphore.cpp
+    (`SyncCfg.semaphore_waitT`: calls with errno classes, `continue`, `goto`, the counted polling loop as decision trees over
+    `i < timeout`): the node of the program counter carries the call the model performs (the `usleep` argument IS the model's
+    `Poll.sleepUs`); for the outcome of the call the table's edge gives the operation on the loop variable and — after
+    deciding its loop tests with the new value and the requested time-out — either the next node, which is where the model
+    goes (same deadline record, that loop variable, sleep until `now + sleepUs`), or the value the model returns. -/
+theorem sem_timed_wait_step_is_translated_code (s : Sem.St) (t : Tid) (s' : Sem.St) (alt : Nat) (d : Deadline)
+    (hd : (s.pc t).dl = some d) (hs : Sem.step s t (.run alt) = some s') :
+    ∃ n nd, Sem.pollAt (s.pc t) = some n ∧ SyncCfg.semaphore_waitT.nodes[n]? = some nd ∧ nd.call = Sem.pollCall (s.pc t) ∧
+      match SyncCfg.semaphore_waitT.after n (Sem.outcome s t alt) with
+      | none => False
+      | some e =>
+        match e.next.resolve (CtrOp.apply e.ctr (Sem.ctrOf (s.pc t))) d.ms with
+        | .node m => Sem.pollAt (s'.pc t) = some m ∧ (s'.pc t).dl = some d ∧
+            (m ≠ 0 → Sem.ctrOf (s'.pc t) = CtrOp.apply e.ctr (Sem.ctrOf (s.pc t))) ∧
+            (∀ d' i w, s'.pc t = .pollSleep d' i w → w = s.now + Sem.Poll.sleepUs * 1000)
+        | .ret b => s'.pc t = .idle ∧ s'.ret t = some (.bool b)
+        | .ifLess _ _ => False := by
+  simp only [Sem.step] at hs
+  cases hpc : s.pc t with
+  | idle => simp [hpc, Sem.Pc.dl] at hd
+  | post => simp [hpc, Sem.Pc.dl] at hd
+  | wait => simp [hpc, Sem.Pc.dl] at hd
+  | tryWait => simp [hpc, Sem.Pc.dl] at hd
+  | twait d0 =>
+    simp only [hpc, Sem.Pc.dl, Option.some.injEq] at hd
+    subst hd
+    simp only [hpc, Sem.done, Sem.goto] at hs
+    (repeat' split at hs) <;> simp at hs <;> (try subst hs) <;>
+      (refine ⟨0, _, rfl, rfl, rfl, ?_⟩ <;>
+        simp_all [Sem.outcome, Sem.pollAt, Sem.pollCall, Sem.ctrOf, Sem.Pc.dl, PollFn.after, CtrOp.apply, PNext.resolve,
+          SyncCfg.semaphore_waitT, Sem.Poll.start, Sem.Poll.stepMs, Sem.Poll.sleepUs, Nstd.Generated.SyncSemPoll.start,
+          Nstd.Generated.SyncSemPoll.stepMs, Nstd.Generated.SyncSemPoll.sleepUs, upd])
+  | pollTry d0 i =>
+    simp only [hpc, Sem.Pc.dl, Option.some.injEq] at hd
+    subst hd
+    simp only [hpc, Sem.done, Sem.goto] at hs
+    (repeat' split at hs) <;> simp at hs <;> (try subst hs) <;>
+      (refine ⟨1, _, rfl, rfl, rfl, ?_⟩ <;>
+        simp_all [Sem.outcome, Sem.pollAt, Sem.pollCall, Sem.ctrOf, Sem.Pc.dl, PollFn.after, CtrOp.apply, PNext.resolve,
+          SyncCfg.semaphore_waitT, Sem.Poll.start, Sem.Poll.stepMs, Sem.Poll.sleepUs, Nstd.Generated.SyncSemPoll.start,
+          Nstd.Generated.SyncSemPoll.stepMs, Nstd.Generated.SyncSemPoll.sleepUs, upd])
+  | pollSleep d0 i w =>
+    simp only [hpc, Sem.Pc.dl, Option.some.injEq] at hd
+    subst hd
+    simp only [hpc, Sem.done, Sem.goto] at hs
+    (repeat' split at hs) <;> simp at hs <;> (try subst hs) <;>
+      (refine ⟨2, _, rfl, rfl, rfl, ?_⟩ <;>
+        simp_all [Sem.outcome, Sem.pollAt, Sem.pollCall, Sem.ctrOf, Sem.Pc.dl, PollFn.after, CtrOp.apply, PNext.resolve,
+          SyncCfg.semaphore_waitT, Sem.Poll.start, Sem.Poll.stepMs, Sem.Poll.sleepUs, Nstd.Generated.SyncSemPoll.start,
+          Nstd.Generated.SyncSemPoll.stepMs, Nstd.Generated.SyncSemPoll.sleepUs, upd]) <;>
+      (try simp [Nat.not_lt.mpr ‹_ ≤ _›])
+
+/-- beginning `wait(timeout)` enters the table at its entry (node 0, no counter operation) -/
+theorem sem_timed_wait_entry_is_translated_code :
+    SyncCfg.semaphore_waitT.entry = some ⟨none, .node 0⟩ ∧ SyncCfg.semaphore_waitT.nodes.length = 3 ∧
+    ∀ (s : Sem.St) (t : Tid) (ms : Nat) (s' : Sem.St), Sem.step s t (.call (.twait ms)) = some s' → Sem.pollAt (s'.pc t) = some 0 := by
+  refine ⟨by decide, by decide, ?_⟩
+  intro s t ms s' hs
+  simp only [Sem.step] at hs
+  split at hs
+  · simp at hs; subst hs; simp [Sem.pollAt, upd]
+  · simp at hs
 
 /-! ## Thread (Thread.cpp, Thread.hpp): the handle `thread` of Thread object `j` plays the role of the flag -/
 
